@@ -90,6 +90,11 @@ def main():
         build.ensure_built()
     ctx.cache_dir, ctx.treehash = build.private_cache_env()
 
+    # one assembly thread per process: the drivers parallelise over cases; checks about thread counts set
+    # their own value in fresh child processes (the library's default is cpu_count() pool threads per process)
+    import pyiga
+    pyiga.set_max_threads(1)
+
     drv = importlib.import_module("props." + prop.lower())
 
     if args.replay:
@@ -111,7 +116,8 @@ def main():
 
     t0 = time.time()
     try:
-        out = drv.run(ctx)
+        from mc import par
+        out = par.roomy(drv.run, ctx)
     except SystemExit:
         raise
     except Exception:
